@@ -1,0 +1,32 @@
+//go:build verif
+
+package pubsub
+
+import (
+	"context"
+	"sync/atomic"
+)
+
+// VerifHookFunc is the signature of the verification hook. It only exists in builds tagged
+// "verif" and is used by external verification harnesses to observe and gate the segments
+// between lock acquisitions and condition waits.
+type VerifHookFunc func(ctx context.Context, point string, args ...any)
+
+var verifHook atomic.Pointer[VerifHookFunc]
+
+// VerifSetHook installs (or, with nil, removes) the verification hook.
+func VerifSetHook(fn VerifHookFunc) {
+	if fn == nil {
+		verifHook.Store(nil)
+		return
+	}
+	verifHook.Store(&fn)
+}
+
+func verifAt(ctx context.Context, point string, args ...any) {
+	if h := verifHook.Load(); h != nil {
+		(*h)(ctx, point, args...)
+	}
+}
+
+func verifSig(point string, args ...any) { verifAt(context.Background(), point, args...) }
